@@ -1,7 +1,7 @@
 """C12 - reconnecting streams deliver every item once, in order, with one notice per drop."""
 import sympy
 
-from sa import atoms, formula, mir
+from sa import atoms, formula, mir, whomay
 from sa.mir import render, render_guard
 from rules import common
 
@@ -125,6 +125,19 @@ def r1(ctx):
     gsf = ctx.fbody(name="generate_sleep_future", self_adt=STATE, trait="")
     ctx.check("ReconnectionState::generate_sleep_future", render(gsf.return_term()) == "time::sleep(Duration::from_millis(self.backoff_ms_current))",
               "sleeps for the current backoff", got=render(gsf.return_term()), key="sleep")
+    ctx.check("ReconnectionState::generate_sleep_future", not gsf.stores() and not [1 for bi, t, tm in gsf.real_calls() if gsf.mut_args(t)],
+              "generating the sleep does not itself change the backoff (one multiplication per failed attempt)",
+              got=[render(tm)[:100] for bi, t, tm in gsf.real_calls() if gsf.mut_args(t)], key="sleep-pure")
+    ws = [w for w in whomay.writers_of(ctx.facts, STATE, "backoff_ms_current") if not common.is_test(ctx.facts, w[0]) and w[2] != "construct"]
+    owners = sorted(set(mir.short(whomay.owner_fn(w[0])) for w in ws))
+    ctx.check("ReconnectionState.backoff_ms_current", owners == ["ReconnectionState::multiply_backoff", "ReconnectionState::reset_backoff"],
+              "only reset_backoff and multiply_backoff assign the current backoff", got=owners, key="writers")
+    for fn, n_want in (("multiply_backoff", 1), ("reset_backoff", 1)):
+        tgt = ctx.find(name=fn, self_adt=STATE, trait="")
+        cs = [(d, bi, sp) for d, bi, sp in common.lib_callers(ctx.facts, tgt)]
+        ctx.check("ReconnectionState::%s" % fn, len(cs) == n_want and all("with_reconnect_backoff" in d for d, _, _ in cs),
+                  "called from exactly one site, inside with_reconnect_backoff", sites=[sp for _, _, sp in cs],
+                  got=[mir.short(whomay.owner_fn(d)) for d, _, _ in cs], key="callers")
     ctx.floor("backoff checks", 6, 6)
 
 
